@@ -188,6 +188,15 @@ _CALL = {"jit", "pjit", "closed_call", "core_call", "remat", "checkpoint", "cust
          "custom_vjp_call_jaxpr", "custom_lin", "run_state"}
 
 
+def _known_true(t, guards):
+    """t is one of the guard terms or a conjunction of them (syntactic check)."""
+    if any(t.eq(g) for g in guards):
+        return True
+    if z3.is_and(t):
+        return all(_known_true(ch, guards) for ch in t.children())
+    return False
+
+
 def _fold_out(x):
     """result of a folded (all-concrete) equation -> numpy; typed PRNG key arrays (random_wrap / random_split) stay jax arrays."""
     try:
@@ -262,6 +271,9 @@ class Interp:
         if p == "unvmap_max":
             return ins[0]
         if p == "select_if_vmap":
+            g = getattr(self, "_path_true", None)
+            if g and is_obj(ins[0]) and ins[0].size == 1 and isz(ins[0].reshape(-1)[0]) and _known_true(ins[0].reshape(-1)[0], g):
+                return ins[1]  # exit-chain mode: the loop predicate is known true on this path (unbatched select_if_vmap = its 2nd operand)
             return self._select_n(ins[0], [ins[2], ins[1]])
         if p in _IDENT:
             return ins[0] if not e.primitive.multiple_results else list(ins)
@@ -326,6 +338,8 @@ class Interp:
         cj, bj = prm["cond_jaxpr"], prm["body_jaxpr"]
         cn, bn = prm["cond_nconsts"], prm["body_nconsts"]
         cc, bc, st = list(ins[:cn]), list(ins[cn:cn + bn]), list(ins[cn + bn:])
+        if getattr(self, "while_exit_chain", False):
+            return self._while_exit_chain(e, cj, bj, cc, bc, st)
         it = 0
         guards = []
         while True:
@@ -348,6 +362,41 @@ class Interp:
                 raise NotEncodable("while loop does not terminate")
         self.stats["while_iters"] += it
         return st
+
+    def _while_exit_chain(self, e, cj, bj, cc, bc, st):
+        """opt-in (``interp.while_exit_chain = True``) path-sensitive unrolling of a while loop with symbolic predicates:
+        the body is always evaluated on the un-merged state of the path "every earlier predicate was true" (so a loop
+        counter / time index stays concrete along that path) and the result is the exit chain
+        ite(c0, ite(c1, ... , s1), s0).  Same semantics as the merging scheme of ``_while``."""
+        it = 0
+        exits = []  # (predicate_i, state_i): state when the loop is left at iteration i
+        while True:
+            c = self.run(cj.jaxpr, cj.consts, cc + st)[0]
+            if is_obj(c) and has_z3(c):
+                cz = c.reshape(-1)[0]
+                if it >= self.unroll_bound:
+                    self.unwinding.append(z3.Implies(z3.And(*[g for g, _ in exits]) if exits else z3.BoolVal(True), z3.Not(cz)))
+                    break
+                exits.append((cz, st))
+                saved_guards = getattr(self, "_path_true", None)
+                self._path_true = [g for g, _ in exits]
+                try:
+                    st = self.run(bj.jaxpr, bj.consts, bc + st)
+                finally:
+                    self._path_true = saved_guards
+                st = [demote_if_concrete(s_, v.aval.dtype) if is_obj(s_) else s_ for s_, v in zip(st, e.outvars)]
+            else:
+                if not bool(to_numeric(c).reshape(-1)[0]):
+                    break
+                st = self.run(bj.jaxpr, bj.consts, bc + st)
+            it += 1
+            if it > 100000:
+                raise NotEncodable("while loop does not terminate")
+        self.stats["while_iters"] += it
+        res = st
+        for cz, s_i in reversed(exits):
+            res = [ew(lambda x, y, cz=cz: sc.ite(cz, x, y), n, o) for n, o in zip(res, s_i)]
+        return [demote_if_concrete(s, v.aval.dtype) for s, v in zip(res, e.outvars)]
 
     def _scan(self, e, ins):
         prm = e.params
@@ -446,6 +495,73 @@ class Interp:
                         flat[k] = pool[iv]
             res.append(out)
         return res if e.primitive.multiple_results else res[0]
+
+    def p_dynamic_slice(self, e, ins):
+        """dynamic_slice whose start indices may be symbolic Ints: If-chain over the admissible starts (XLA clamps every
+        start into [0, dim - size], so the first / last alternative are guarded by <= / >=).  Concrete starts -> _move."""
+        idx = list(ins[1:])
+        if not any(is_obj(a) and has_z3(a) for a in idx):
+            return self._move(e, ins)
+        op = lift(ins[0])
+        sizes = tuple(int(v) for v in e.params["slice_sizes"])
+
+        def build(d, starts):
+            if d == len(sizes):
+                return op[tuple(slice(s0, s0 + n) for s0, n in zip(starts, sizes))]
+            hi = op.shape[d] - sizes[d]
+            a = idx[d]
+            if not (is_obj(a) and has_z3(a)):
+                v = int(to_numeric(a).reshape(-1)[0])
+                return build(d + 1, starts + [min(max(v, 0), hi)])
+            t = a.reshape(-1)[0]
+            if not z3.is_int(t):
+                raise NotEncodable("dynamic_slice start index of non-Int sort")
+            res = build(d + 1, starts + [hi])
+            for v in range(hi - 1, -1, -1):
+                c = (t <= 0) if v == 0 else (t == v)
+                alt = build(d + 1, starts + [v])
+                res = ew(lambda x, y, c=c: sc.ite(c, x, y), alt, res)
+            return res
+
+        return build(0, [])
+
+    def p_fft(self, e, ins):
+        """1-d DFT along the last axis as an explicit matrix product (quarter-turn twiddles exact, the others the float
+        cos/sin values taken exactly)."""
+        import math
+        lens = tuple(int(v) for v in e.params["fft_lengths"])
+        ft = e.params["fft_type"]
+        kind = getattr(ft, "name", str(ft)).upper()
+        kind = {"0": "FFT", "1": "IFFT", "2": "RFFT", "3": "IRFFT"}.get(kind, kind).split(".")[-1]
+        if len(lens) != 1 or kind not in ("FFT", "IFFT", "RFFT"):
+            raise NotEncodable(f"fft type {kind} lengths {lens}")
+        n = lens[0]
+        x = lift(ins[0])
+        if x.shape[-1] != n:
+            raise NotEncodable("fft length differs from the operand's last axis")
+        sign = 1 if kind == "IFFT" else -1
+
+        def tw(m):
+            m %= n
+            if (4 * m) % n == 0:
+                q = (4 * m) // n
+                return [(1, 0), (0, 1), (-1, 0), (0, -1)][q] if sign > 0 else [(1, 0), (0, -1), (-1, 0), (0, 1)][q]
+            ang = 2 * math.pi * m / n
+            return (math.cos(ang), sign * math.sin(ang))
+
+        nout = n // 2 + 1 if kind == "RFFT" else n
+        out = np.empty(x.shape[:-1] + (nout,), dtype=object)
+        for pre in (np.ndindex(*x.shape[:-1]) if x.ndim > 1 else [()]):
+            row = x[pre]
+            for k in range(nout):
+                acc = Cx(0, 0)
+                for j in range(n):
+                    wr, wi = tw(j * k)
+                    acc = sc.add(acc, sc.mul(sc.cx(row[j]), Cx(wr, wi)))
+                if kind == "IFFT":
+                    acc = sc.div(acc, n)
+                out[pre + (k,)] = acc
+        return out
 
     def p_select_n(self, e, ins):
         return self._select_n(ins[0], ins[1:])
